@@ -194,8 +194,12 @@ def buildRecG (spl : Splitter K) (dil : K) : Nat → GSt K → Array Nat → Nat
                       let nd' : Node K := { nd with children := #v[c0, c1, c2, c3], boxes := boxes }
                       some ({ st4 with q := { st4.q with nodes := st4.q.nodes.setIfInBounds id nd' } }, id, mergedBox boxes)
 
-/-- recursion budget of `rebuildG`: the Rust recursion is unbounded (a stack overflow when it does not terminate) -/
-def buildFuel (n : Nat) : Nat := 4 * n + 256
+/-- recursion budget of `rebuildG`.  With the fallback split the number of indices suffices (`build_terminates`: every
+recursive call is on a strictly shorter slice) — the budget `rebuild` uses.  Without it, and with the cutting splitter,
+the Rust recursion is unbounded (a stack overflow when it does not terminate): a generous budget, `none` beyond it. -/
+def buildFuel : Splitter K → Nat → Nat
+  | .center true, n => n
+  | _, n => 4 * n + 256
 
 /-- `Qbvh::clear_and_rebuild_with_splitter(data_gen, splitter, dilation_factor)`; also returns the callback's record of
 the pieces in call order.  `base` = the first fresh id of the callback. -/
@@ -205,7 +209,7 @@ def rebuildG (spl : Splitter K) (base : Nat) (q : Q K) (items : List (Nat × Aab
   let (ps, aabbs, indices) := fillProxies items (Array.replicate n invalidProxy, Array.replicate n invalidBox, #[])
   let root : Node K := ⟨Vector.replicate 4 invalidBox, #v[1, MAXN, MAXN, MAXN], MAXN, 0, false, false, false⟩
   let q0 : Q K := { q with freeList := [], nodes := #[root], proxies := ps }
-  match buildRecG spl dil (buildFuel n) ⟨q0, aabbs, base, []⟩ indices 0 0 with
+  match buildRecG spl dil (buildFuel spl indices.size) ⟨q0, aabbs, base, []⟩ indices 0 0 with
   | none => none
   | some (st, _, aabb) =>
     let q1 := st.q
